@@ -15,7 +15,7 @@ import secrets
 import socket
 
 from dotenv import load_dotenv
-from flask import Flask, request, Response  # type: ignore
+from flask import Flask, make_response, request, Response  # type: ignore
 from flask_login import LoginManager
 from flask_socketio import SocketIO
 from werkzeug.routing import BaseConverter, Map  # type: ignore
@@ -62,6 +62,15 @@ def no_api_cache(response: Response) -> Response:
         response.cache_control.must_revalidate = True
     return response
 
+def json_body_is_an_object() -> Response | None:
+    """
+    Every handler that reads a JSON body expects it to be an object
+    """
+    if request.is_json and request.get_data(cache=True):
+        if not isinstance(request.get_json(silent=True), dict):
+            return make_response('A JSON object is required', 400)
+    return None
+
 def add_a_route(app: Flask, name: str, route: Route):
     full_path: str = f'dashlive.server.requesthandler.{route.handler}'
     pos: int = full_path.rindex('.')
@@ -78,6 +87,7 @@ def add_a_route(app: Flask, name: str, route: Route):
 def add_routes(app: Flask) -> None:
     app.url_map.converters['regex'] = RegexConverter
     app.after_request(no_api_cache)
+    app.before_request(json_body_is_an_object)
     for name, route in routes.items():
         add_a_route(app, name, route)
         # if name == 'home':
